@@ -424,7 +424,12 @@ fn parse_enum_variant(
     target_os: &[String],
 ) -> Result<RustEnumVariant, ParseError> {
     let shared = RustEnumVariantShared {
-        id: get_ident(Some(&v.ident), &v.attrs, enum_serde_rename_all),
+        id: get_ident_at(
+            Some(&v.ident),
+            &v.attrs,
+            enum_serde_rename_all,
+            IdentPosition::Variant,
+        ),
         comments: parse_comment_attrs(&v.attrs),
     };
 
@@ -624,14 +629,34 @@ pub(crate) fn get_meta_items(attr: &syn::Attribute, ident: &str) -> impl Iterato
     }
 }
 
+/// Where an identifier sits. serde's `rename_all` rules convert struct fields
+/// (written in snake_case) and enum variants (written in PascalCase) differently.
+#[derive(Clone, Copy, PartialEq, Eq)]
+enum IdentPosition {
+    Field,
+    Variant,
+}
+
 fn get_ident(
     ident: Option<&proc_macro2::Ident>,
     attrs: &[syn::Attribute],
     rename_all: &Option<String>,
 ) -> Id {
+    get_ident_at(ident, attrs, rename_all, IdentPosition::Field)
+}
+
+fn get_ident_at(
+    ident: Option<&proc_macro2::Ident>,
+    attrs: &[syn::Attribute],
+    rename_all: &Option<String>,
+    position: IdentPosition,
+) -> Id {
     let original = ident.map_or("???".to_string(), |id| id.to_string().replace("r#", ""));
 
-    let mut renamed = rename_all_to_case(original.clone(), rename_all);
+    let mut renamed = match position {
+        IdentPosition::Field => rename_all_to_case(original.clone(), rename_all),
+        IdentPosition::Variant => rename_all_to_variant_case(original.clone(), rename_all),
+    };
 
     let mut renamed_via_serde_rename = false;
     if let Some(s) = serde_rename(attrs) {
@@ -643,6 +668,14 @@ fn get_ident(
         original,
         renamed,
         serde_rename: renamed_via_serde_rename,
+    }
+}
+
+/// Lowercase the first (ASCII) character, as serde does for `camelCase`.
+fn lowercase_first(s: String) -> String {
+    match s.chars().next() {
+        Some(first) => first.to_ascii_lowercase().to_string() + &s[first.len_utf8()..],
+        None => s,
     }
 }
 
@@ -658,6 +691,37 @@ fn rename_all_to_case(original: String, case: &Option<String>) -> String {
             "SCREAMING_SNAKE_CASE" => original.to_screaming_snake_case(),
             "kebab-case" => original.to_kebab_case(),
             "SCREAMING-KEBAB-CASE" => original.to_screaming_kebab_case(),
+            _ => original,
+        },
+    }
+}
+
+/// Apply a `rename_all` rule to an enum variant identifier exactly like
+/// serde_derive does (`RenameRule::apply_to_variant`): variants are assumed to
+/// be written in PascalCase.
+fn rename_all_to_variant_case(original: String, case: &Option<String>) -> String {
+    fn snake(variant: &str) -> String {
+        let mut snake = String::new();
+        for (i, ch) in variant.char_indices() {
+            if i > 0 && ch.is_uppercase() {
+                snake.push('_');
+            }
+            snake.push(ch.to_ascii_lowercase());
+        }
+        snake
+    }
+
+    match case {
+        None => original,
+        Some(value) => match value.as_str() {
+            "lowercase" => original.to_ascii_lowercase(),
+            "UPPERCASE" => original.to_ascii_uppercase(),
+            "PascalCase" => original,
+            "camelCase" => lowercase_first(original),
+            "snake_case" => snake(&original),
+            "SCREAMING_SNAKE_CASE" => snake(&original).to_ascii_uppercase(),
+            "kebab-case" => snake(&original).replace('_', "-"),
+            "SCREAMING-KEBAB-CASE" => snake(&original).to_ascii_uppercase().replace('_', "-"),
             _ => original,
         },
     }
